@@ -88,6 +88,319 @@ theorem Cell.busy (w : World) (c : TCtl) (ci : Nat) (v : Int) (s : CellSt)
   · intro h; simp [cellReadCheck, h, bind, Except.bind]
   · intro h; simp [cellWriteCheck, h, bind, Except.bind]
 
+/-! ## 1b. `UnsafeCell` sections that stay open across other operations
+
+`let p = cell.get()` … `drop(p)` (`.cellReadBegin` … `.cellReadEnd`) and `let p = cell.get_mut()` … `drop(p)`
+(`.cellWriteBegin` … `.cellWriteEnd`).  The BEGIN of a section runs inside `rt::synchronize` (it is checked with
+the causality after the increment, `w.sync.ths.caus`); the END (a guard's `drop`) does not increment: it is
+checked, and recorded, with the causality the thread has at that point, `w.ths.caus`. -/
+
+/-- Read sections, the decision logic of both ends, in every world.
+BEGIN (`s` the cell's state, `cur` the causality after the `synchronize` increment): `.cellBusy` iff a write
+section is open; else "Concurrent read and write accesses" (kind 9) iff the write clock is not `≤ cur`; no other
+failure; otherwise it succeeds: one more reader, `cur` joined into the read clock, the value returned.
+END (`cur'` the thread's causality as it is): `internal 86` iff no read section is open or a write section is (an
+ill-formed program); else kind 9 iff the write clock is not `≤ cur'`; no other failure; otherwise it succeeds:
+one reader less, `cur'` joined into the read clock. -/
+theorem Cell.section_read_panics_iff (w : World) (c : TCtl) (ci : Nat) (s : CellSt) :
+    (w.sync.getCell (w.cellObj ci) = .ok s →
+      let cur := w.sync.ths.caus
+      (w.runOp c (.cellReadBegin ci) = .error .cellBusy ↔ s.isWriting = true) ∧
+      (w.runOp c (.cellReadBegin ci) = .error (.causality 9) ↔
+        s.isWriting = false ∧ ¬ s.writeAccess.le cur) ∧
+      (∀ e, w.runOp c (.cellReadBegin ci) = .error e → e = .cellBusy ∨ e = .causality 9) ∧
+      (s.isWriting = false ∧ s.writeAccess.le cur ↔
+        w.runOp c (.cellReadBegin ci) =
+          .ok ((w.sync.setObj (w.cellObj ci)
+            (.cell { s with isReading := s.isReading + 1,
+                            readAccess := s.readAccess.join cur })).complete (.val s.value)))) ∧
+    (w.getCell (w.cellObj ci) = .ok s →
+      let cur' := w.ths.caus
+      (w.runOp c (.cellReadEnd ci) = .error (.internal 86) ↔ s.isReading = 0 ∨ s.isWriting = true) ∧
+      (w.runOp c (.cellReadEnd ci) = .error (.causality 9) ↔
+        s.isReading ≠ 0 ∧ s.isWriting = false ∧ ¬ s.writeAccess.le cur') ∧
+      (∀ e, w.runOp c (.cellReadEnd ci) = .error e → e = .internal 86 ∨ e = .causality 9) ∧
+      (s.isReading ≠ 0 ∧ s.isWriting = false ∧ s.writeAccess.le cur' ↔
+        w.runOp c (.cellReadEnd ci) =
+          .ok ((w.setObj (w.cellObj ci)
+            (.cell { s with isReading := s.isReading - 1,
+                            readAccess := s.readAccess.join cur' })).complete .unit))) := by
+  constructor
+  · intro hs cur
+    rw [runOp_cellReadBegin, hs]
+    cases hw : s.isWriting
+    · by_cases hle : s.writeAccess.le cur
+      · simp [cellReadBeginCheck, hw, hle, cur, bind, Except.bind, pure, Except.pure]
+      · simp [cellReadBeginCheck, hw, hle, cur, bind, Except.bind]
+    · simp [cellReadBeginCheck, hw, bind, Except.bind]
+  · intro hs cur'
+    rw [runOp_cellReadEnd, hs]
+    cases hw : s.isWriting
+    · by_cases hr : s.isReading = 0
+      · simp [cellReadEndCheck, hw, hr, bind, Except.bind]
+      · by_cases hle : s.writeAccess.le cur'
+        · simp [cellReadEndCheck, hw, hr, hle, cur', bind, Except.bind, pure, Except.pure]
+        · simp [cellReadEndCheck, hw, hr, hle, cur', bind, Except.bind]
+    · simp [cellReadEndCheck, hw, bind, Except.bind]
+
+/-- Write sections, the decision logic of both ends, in every world.
+BEGIN: `.cellBusy` iff any section is open; else "Concurrent write accesses" (kind 10) iff the write clock is not
+`≤ cur`; else "Concurrent read and write accesses" (kind 11) iff the read clock is not `≤ cur`; no other failure;
+otherwise it succeeds: the write section is open, `cur` joined into the write clock, the value written.
+END: `internal 87` iff no write section is open or a read section is (an ill-formed program); else kind 10 / kind 11
+as above against `cur'` (the thread's causality as it is); no other failure; otherwise it succeeds: the section
+is closed, `cur'` joined into the write clock. -/
+theorem Cell.section_write_panics_iff (w : World) (c : TCtl) (ci : Nat) (v : Int) (s : CellSt) :
+    (w.sync.getCell (w.cellObj ci) = .ok s →
+      let cur := w.sync.ths.caus
+      (w.runOp c (.cellWriteBegin ci v) = .error .cellBusy ↔ s.isReading ≠ 0 ∨ s.isWriting = true) ∧
+      (w.runOp c (.cellWriteBegin ci v) = .error (.causality 10) ↔
+        s.isReading = 0 ∧ s.isWriting = false ∧ ¬ s.writeAccess.le cur) ∧
+      (w.runOp c (.cellWriteBegin ci v) = .error (.causality 11) ↔
+        s.isReading = 0 ∧ s.isWriting = false ∧ s.writeAccess.le cur ∧ ¬ s.readAccess.le cur) ∧
+      (∀ e, w.runOp c (.cellWriteBegin ci v) = .error e →
+        e = .cellBusy ∨ e = .causality 10 ∨ e = .causality 11) ∧
+      (s.isReading = 0 ∧ s.isWriting = false ∧ s.writeAccess.le cur ∧ s.readAccess.le cur ↔
+        w.runOp c (.cellWriteBegin ci v) =
+          .ok ((w.sync.setObj (w.cellObj ci)
+            (.cell { s with isWriting := true, writeAccess := s.writeAccess.join cur,
+                            value := v })).complete .unit))) ∧
+    (w.getCell (w.cellObj ci) = .ok s →
+      let cur' := w.ths.caus
+      (w.runOp c (.cellWriteEnd ci) = .error (.internal 87) ↔ s.isWriting = false ∨ s.isReading ≠ 0) ∧
+      (w.runOp c (.cellWriteEnd ci) = .error (.causality 10) ↔
+        s.isWriting = true ∧ s.isReading = 0 ∧ ¬ s.writeAccess.le cur') ∧
+      (w.runOp c (.cellWriteEnd ci) = .error (.causality 11) ↔
+        s.isWriting = true ∧ s.isReading = 0 ∧ s.writeAccess.le cur' ∧ ¬ s.readAccess.le cur') ∧
+      (∀ e, w.runOp c (.cellWriteEnd ci) = .error e →
+        e = .internal 87 ∨ e = .causality 10 ∨ e = .causality 11) ∧
+      (s.isWriting = true ∧ s.isReading = 0 ∧ s.writeAccess.le cur' ∧ s.readAccess.le cur' ↔
+        w.runOp c (.cellWriteEnd ci) =
+          .ok ((w.setObj (w.cellObj ci)
+            (.cell { s with isWriting := false,
+                            writeAccess := s.writeAccess.join cur' })).complete .unit))) := by
+  constructor
+  · intro hs cur
+    rw [runOp_cellWriteBegin, hs]
+    cases hw : s.isWriting
+    · by_cases hr : s.isReading = 0
+      · by_cases hle : s.writeAccess.le cur
+        · by_cases hle2 : s.readAccess.le cur
+          · simp [cellWriteBeginCheck, hw, hr, hle, hle2, cur, bind, Except.bind, pure, Except.pure]
+          · simp [cellWriteBeginCheck, hw, hr, hle, hle2, cur, bind, Except.bind]
+        · simp [cellWriteBeginCheck, hw, hr, hle, cur, bind, Except.bind]
+      · simp [cellWriteBeginCheck, hw, hr, bind, Except.bind]
+    · simp [cellWriteBeginCheck, hw, bind, Except.bind]
+  · intro hs cur'
+    rw [runOp_cellWriteEnd, hs]
+    cases hw : s.isWriting
+    · simp [cellWriteEndCheck, hw, bind, Except.bind]
+    · by_cases hr : s.isReading = 0
+      · by_cases hle : s.writeAccess.le cur'
+        · by_cases hle2 : s.readAccess.le cur'
+          · simp [cellWriteEndCheck, hw, hr, hle, hle2, cur', bind, Except.bind, pure, Except.pure]
+          · simp [cellWriteEndCheck, hw, hr, hle, hle2, cur', bind, Except.bind]
+        · simp [cellWriteEndCheck, hw, hr, hle, cur', bind, Except.bind]
+      · simp [cellWriteEndCheck, hw, hr, bind, Except.bind]
+
+/-- The END of a read is recorded.  After a successful `.cellReadEnd` — in ANY world, however many other read
+sections of the cell are still open — the cell's read clock dominates the ending thread's causality at that
+point (`w.ths.caus`; the old read clock is kept below it too), nothing else of the cell changes but the reader
+count.  Consequently a LATER write (`.cellWrite` or `.cellWriteBegin`, in any world `w2` in which the cell's read
+clock has only grown) by a thread that did not synchronise with the END of the read — its causality does not
+dominate `w.ths.caus` — does not succeed: it is a reported race (or `.cellBusy`); precisely "Concurrent read and
+write accesses" (kind 11) when the cell is not being accessed and the write clock is ordered before it.
+Synchronising with the BEGIN of the read only is not enough. -/
+theorem Cell.read_end_recorded (w w' : World) (c : TCtl) (ci : Nat)
+    (h : w.runOp c (.cellReadEnd ci) = .ok w') :
+    ∃ s s', w.getCell (w.cellObj ci) = .ok s ∧ w'.getCell (w.cellObj ci) = .ok s' ∧
+      w.ths.caus.le s'.readAccess ∧ s.readAccess.le s'.readAccess ∧
+      s' = { s with isReading := s.isReading - 1, readAccess := s.readAccess.join w.ths.caus } ∧
+      s.isReading ≠ 0 ∧
+      (∀ (w2 : World) (c2 : TCtl) (v : Int) (s2 : CellSt),
+        w2.sync.getCell (w2.cellObj ci) = .ok s2 → s'.readAccess.le s2.readAccess →
+        ¬ w.ths.caus.le w2.sync.ths.caus →
+        (∀ w3, w2.runOp c2 (.cellWrite ci v) ≠ .ok w3) ∧
+        (∀ w3, w2.runOp c2 (.cellWriteBegin ci v) ≠ .ok w3) ∧
+        ((s2.isReading != 0 || s2.isWriting) = false → s2.writeAccess.le w2.sync.ths.caus →
+          w2.runOp c2 (.cellWrite ci v) = .error (.causality 11) ∧
+          w2.runOp c2 (.cellWriteBegin ci v) = .error (.causality 11))) := by
+  cases hs : w.getCell (w.cellObj ci) with
+  | error e => rw [runOp_cellReadEnd, hs] at h; cases h
+  | ok s =>
+    rw [runOp_cellReadEnd, hs] at h
+    simp only [bind, Except.bind] at h
+    cases hc : cellReadEndCheck s w.ths.caus with
+    | error e => rw [hc] at h; cases h
+    | ok s' =>
+      rw [hc] at h
+      cases h
+      have hcond : s.isReading ≠ 0 ∧ s.isWriting = false ∧ s.writeAccess.le w.ths.caus := by
+        unfold cellReadEndCheck at hc
+        split at hc
+        · cases hc
+        · split at hc
+          · cases hc
+          · rename_i h1 h2
+            refine ⟨?_, ?_, Classical.not_not.1 h2⟩
+            · intro e0; exact h1 (by simp [e0])
+            · cases hw : s.isWriting
+              · rfl
+              · exact absurd (by simp [hw]) h1
+      have hs' : s' =
+          { s with isReading := s.isReading - 1, readAccess := s.readAccess.join w.ths.caus } := by
+        have : cellReadEndCheck s w.ths.caus = .ok
+            { s with isReading := s.isReading - 1, readAccess := s.readAccess.join w.ths.caus } := by
+          unfold cellReadEndCheck
+          have h1 : (s.isReading == 0 || s.isWriting) = false := by
+            simp [hcond.1, hcond.2.1]
+          simp [h1, hcond.2.2]
+        rw [this] at hc
+        cases hc; rfl
+      have hdom : w.ths.caus.le s'.readAccess := by
+        rw [hs']; exact le_join_right _ _
+      refine ⟨s, s', rfl, getCell_setObj_complete _ hs, hdom, ?_, hs', hcond.1, ?_⟩
+      · rw [hs']; exact le_join_left _ _
+      · intro w2 c2 v s2 h2 hgrow hnot
+        have hrd : ¬ s2.readAccess.le w2.sync.ths.caus := fun hle =>
+          hnot (le_trans hdom (le_trans hgrow hle))
+        have hW := Cell.write_panics_iff w2 c2 ci v s2 h2
+        have hB := (Cell.section_write_panics_iff w2 c2 ci v s2).1 h2
+        refine ⟨?_, ?_, ?_⟩
+        · intro w3 h3
+          cases hb : (s2.isReading != 0 || s2.isWriting)
+          · by_cases hle : s2.writeAccess.le w2.sync.ths.caus
+            · rw [((hW hb).2.1).2 ⟨hle, hrd⟩] at h3; cases h3
+            · rw [((hW hb).1).2 hle] at h3; cases h3
+          · rw [(Cell.busy w2 c2 ci v s2 h2).2 hb] at h3; cases h3
+        · intro w3 h3
+          cases hw : s2.isWriting
+          · by_cases hr : s2.isReading = 0
+            · by_cases hle : s2.writeAccess.le w2.sync.ths.caus
+              · have := (hB.2.2.1).2 ⟨hr, hw, hle, hrd⟩
+                rw [this] at h3; cases h3
+              · have := (hB.2.1).2 ⟨hr, hw, hle⟩
+                rw [this] at h3; cases h3
+            · have := (hB.1).2 (.inl hr)
+              rw [this] at h3; cases h3
+          · have := (hB.1).2 (.inr hw)
+            rw [this] at h3; cases h3
+        · intro hb hle
+          have hr0 : s2.isReading = 0 ∧ s2.isWriting = false := by
+            cases hw : s2.isWriting
+            · by_cases hr : s2.isReading = 0
+              · exact ⟨hr, rfl⟩
+              · simp [hr, hw] at hb
+            · simp [hw] at hb
+          exact ⟨((hW hb).2.1).2 ⟨hle, hrd⟩, (hB.2.2.1).2 ⟨hr0.1, hr0.2, hle, hrd⟩⟩
+
+/-- Every cell operation only GROWS the two clocks of its cell (it joins the accessing thread's causality into
+one of them): what an earlier access recorded is never forgotten by a later one. -/
+theorem Cell.clocks_grow (w w' : World) (c : TCtl) (ci : Nat) (v : Int) (op : Op)
+    (hop : op = .cellRead ci ∨ op = .cellWrite ci v ∨ op = .cellReadBegin ci ∨ op = .cellReadEnd ci ∨
+      op = .cellWriteBegin ci v ∨ op = .cellWriteEnd ci)
+    (h : w.runOp c op = .ok w') :
+    ∃ s s', w.getCell (w.cellObj ci) = .ok s ∧ w'.getCell (w.cellObj ci) = .ok s' ∧
+      s.readAccess.le s'.readAccess ∧ s.writeAccess.le s'.writeAccess := by
+  have hsync : w.sync.getCell (w.cellObj ci) = w.getCell (w.cellObj ci) := rfl
+  rcases hop with rfl | rfl | rfl | rfl | rfl | rfl
+  · rw [runOp_cellRead, hsync] at h
+    cases hs : w.getCell (w.cellObj ci) with
+    | error e => rw [hs] at h; cases h
+    | ok s =>
+      rw [hs] at h
+      simp only [bind, Except.bind] at h
+      cases hc : cellReadCheck s w.sync.ths.caus with
+      | error e => rw [hc] at h; cases h
+      | ok s' =>
+        rw [hc] at h; cases h
+        unfold cellReadCheck at hc
+        repeat' split at hc
+        all_goals first
+          | (cases hc; done)
+          | (cases hc
+             exact ⟨_, _, rfl, getCell_setObj_complete (w := w.sync) _ hs, le_join_left _ _, le_refl _⟩)
+  · rw [runOp_cellWrite, hsync] at h
+    cases hs : w.getCell (w.cellObj ci) with
+    | error e => rw [hs] at h; cases h
+    | ok s =>
+      rw [hs] at h
+      simp only [bind, Except.bind] at h
+      cases hc : cellWriteCheck s w.sync.ths.caus v with
+      | error e => rw [hc] at h; cases h
+      | ok s' =>
+        rw [hc] at h; cases h
+        unfold cellWriteCheck at hc
+        repeat' split at hc
+        all_goals first
+          | (cases hc; done)
+          | (cases hc
+             exact ⟨_, _, rfl, getCell_setObj_complete (w := w.sync) _ hs, le_refl _, le_join_left _ _⟩)
+  · rw [runOp_cellReadBegin, hsync] at h
+    cases hs : w.getCell (w.cellObj ci) with
+    | error e => rw [hs] at h; cases h
+    | ok s =>
+      rw [hs] at h
+      simp only [bind, Except.bind] at h
+      cases hc : cellReadBeginCheck s w.sync.ths.caus with
+      | error e => rw [hc] at h; cases h
+      | ok s' =>
+        rw [hc] at h; cases h
+        unfold cellReadBeginCheck at hc
+        repeat' split at hc
+        all_goals first
+          | (cases hc; done)
+          | (cases hc
+             exact ⟨_, _, rfl, getCell_setObj_complete (w := w.sync) _ hs, le_join_left _ _, le_refl _⟩)
+  · rw [runOp_cellReadEnd] at h
+    cases hs : w.getCell (w.cellObj ci) with
+    | error e => rw [hs] at h; cases h
+    | ok s =>
+      rw [hs] at h
+      simp only [bind, Except.bind] at h
+      cases hc : cellReadEndCheck s w.ths.caus with
+      | error e => rw [hc] at h; cases h
+      | ok s' =>
+        rw [hc] at h; cases h
+        unfold cellReadEndCheck at hc
+        repeat' split at hc
+        all_goals first
+          | (cases hc; done)
+          | (cases hc
+             exact ⟨_, _, rfl, getCell_setObj_complete _ hs, le_join_left _ _, le_refl _⟩)
+  · rw [runOp_cellWriteBegin, hsync] at h
+    cases hs : w.getCell (w.cellObj ci) with
+    | error e => rw [hs] at h; cases h
+    | ok s =>
+      rw [hs] at h
+      simp only [bind, Except.bind] at h
+      cases hc : cellWriteBeginCheck s w.sync.ths.caus v with
+      | error e => rw [hc] at h; cases h
+      | ok s' =>
+        rw [hc] at h; cases h
+        unfold cellWriteBeginCheck at hc
+        repeat' split at hc
+        all_goals first
+          | (cases hc; done)
+          | (cases hc
+             exact ⟨_, _, rfl, getCell_setObj_complete (w := w.sync) _ hs, le_refl _, le_join_left _ _⟩)
+  · rw [runOp_cellWriteEnd] at h
+    cases hs : w.getCell (w.cellObj ci) with
+    | error e => rw [hs] at h; cases h
+    | ok s =>
+      rw [hs] at h
+      simp only [bind, Except.bind] at h
+      cases hc : cellWriteEndCheck s w.ths.caus with
+      | error e => rw [hc] at h; cases h
+      | ok s' =>
+        rw [hc] at h; cases h
+        unfold cellWriteEndCheck at hc
+        repeat' split at hc
+        all_goals first
+          | (cases hc; done)
+          | (cases hc
+             exact ⟨_, _, rfl, getCell_setObj_complete _ hs, le_refl _, le_join_left _ _⟩)
+
 /-! ## 2. atomics: `track_load`, `track_unsync_load`, `track_store`, `track_unsync_mut` -/
 
 /-- Outside `with_mut` (`is_mutating = false`) each `track_*` consults its clocks in the listed
@@ -191,5 +504,19 @@ example : cellWriteCheck { readAccess := VV.ofList [0, 1, 0, 0, 0] } (VV.ofList 
     = .error (.causality 11) := by decide +kernel
 example : (cellWriteCheck { readAccess := VV.ofList [0, 1, 0, 0, 0] }
     (VV.ofList [3, 1, 0, 0, 0]) 7).toBool = true := by decide +kernel
+
+/-- a read section closed by thread 1 at its version 2 is recorded: a writer that saw only its version 1 (the
+BEGIN) is reported, one that saw version 2 passes -/
+example : cellReadEndCheck { isReading := 1, readAccess := VV.ofList [0, 1, 0, 0, 0] }
+    (VV.ofList [0, 2, 0, 0, 0]) =
+    .ok { isReading := 0, readAccess := VV.ofList [0, 2, 0, 0, 0] } := by decide +kernel
+example : cellWriteBeginCheck { readAccess := VV.ofList [0, 2, 0, 0, 0] } (VV.ofList [3, 1, 0, 0, 0]) 7
+    = .error (.causality 11) := by decide +kernel
+example : (cellWriteBeginCheck { readAccess := VV.ofList [0, 2, 0, 0, 0] }
+    (VV.ofList [3, 2, 0, 0, 0]) 7).toBool = true := by decide +kernel
+example : cellWriteBeginCheck { isReading := 1 } (VV.ofList [3, 2, 0, 0, 0]) 7 = .error .cellBusy := by
+  decide +kernel
+example : cellReadEndCheck {} (VV.ofList [3, 2, 0, 0, 0]) = .error (.internal 86) := by decide +kernel
+example : cellWriteEndCheck {} (VV.ofList [3, 2, 0, 0, 0]) = .error (.internal 87) := by decide +kernel
 
 end LoomVerif
